@@ -547,7 +547,7 @@ def run_check(prop, harnesses, level_text="", tier=None, seed=None, budget_s=Non
         tier = "quick"
     seed = int(seed if seed is not None else os.environ.get("VERIF_SEED", "0") or 0)
     workers = int(os.environ.get("VERIF_WORKERS", "16"))
-    budget_s = budget_s or (900 if tier == "quick" else 3600)
+    budget_s = budget_s or (2400 if tier == "quick" else 14400)
     t0 = time.time()
     _HARNESSES.clear()
     _HARNESSES.extend(harnesses)
